@@ -313,7 +313,7 @@ type world struct {
 	version int            // bumped whenever the store may have changed
 	cache   map[string]any // the projection at cacheAt
 	cacheAt int
-	reads   int            // read calls (not written to the trace)
+	reads   int // read calls (not written to the trace)
 }
 
 func (w *world) mark(actor, what string) {
@@ -618,7 +618,69 @@ func (w *world) emit(ev, actor string, m map[string]any) {
 	for k, v := range m {
 		base[k] = v
 	}
+	w.countHits(base)
 	w.tw.Emit(base)
+}
+
+// countHits counts how often the antecedents of the monitor's formulas are exercised (statistics for the
+// evidence file only; the formulas themselves are evaluated by MonRuntime.tla).
+func (w *world) countHits(e map[string]any) {
+	hit := func(k string) { w.tw.Counts["hit:"+k]++ }
+	seen, _ := e["seen"].(map[string]any)
+	des, _ := seen["des"].(string)
+	tk, _ := e["tk"].(string)
+	verb, _ := e["verb"].(string)
+	rt := tk == "dep" || tk == "svc" || tk == "sa" || tk == "sec"
+	wrote, _ := e["wrote"].(map[string]any)
+	wroteSth := wrote != nil && wrote["a"] != "none" && e["outcome"] == "ok"
+	switch e["ev"] {
+	case "call":
+		if des == "Inactive" && rt {
+			hit("InactiveNeverCreates")
+		}
+		if verb == "delete" && tk == "dep" && e["applied"] == true {
+			hit("HandOver(delete applied)")
+			if pre, _ := e["pre"].(map[string]any); pre["ctrl"] != e["actor"] {
+				hit("HandOver(delete of another controller's Deployment)")
+			}
+		}
+		if wroteSth && rt && (verb == "create" || verb == "patch") {
+			hit("Owned+" + tk)
+			if tk == "dep" {
+				hit("Mandatory/Defaults(" + fmt.Sprint(seen["tmpl"]) + "," + w.kind + ")")
+			}
+		}
+		if wroteSth && (verb == "gupdate" || verb == "gcreate") {
+			hit("Owned.Generator")
+		}
+		if tk == "dep" && (verb == "create" || verb == "patch") && des == "Active" {
+			hit("Order")
+		}
+		if verb == "update-status" && e["outcome"] == "ok" && des == "Active" {
+			hit("HealthTruth(status written by an Active reconcile)")
+			if seen["depAvail"] == "true" {
+				hit("HealthTruth(Deployment Available)")
+			}
+		}
+	case "end":
+		if e["result"] == "ok" {
+			hit("end-ok-" + des)
+			if w.kind == "function" && des == "Active" {
+				hit("Endpoint")
+			}
+		}
+		if e["faulty"] == true {
+			hit("reconcile-with-fault")
+		}
+		if e["nested"] == true {
+			hit("nested-reconcile")
+		}
+	case "settled":
+		hit("Settled")
+		if e["fix"] == true {
+			hit("Settled(fixpoint)")
+		}
+	}
 }
 
 // nullObj is the record used where an event wrote no runtime object.
@@ -862,7 +924,9 @@ func (w *world) env(e replay.Entry) {
 	w.version++
 	switch e.K {
 	case "flip":
-		w.s.Mutate(w.revKey(e.O), func(u *unstructured.Unstructured) { _ = unstructured.SetNestedField(u.Object, e.F, "spec", "desiredState") })
+		w.s.Mutate(w.revKey(e.O), func(u *unstructured.Unstructured) {
+			_ = unstructured.SetNestedField(u.Object, e.F, "spec", "desiredState")
+		})
 	case "dn":
 		w.drc.Dn = e.O
 		w.s.Put(w.buildDRC())
@@ -1040,8 +1104,12 @@ func (w *world) installStart(start string, init map[string]any) {
 		return
 	}
 	// r1 is Active in these starts
-	w.s.Mutate(w.revKey("r1"), func(u *unstructured.Unstructured) { _ = unstructured.SetNestedField(u.Object, "Active", "spec", "desiredState") })
-	w.s.Mutate(w.revKey("r2"), func(u *unstructured.Unstructured) { _ = unstructured.SetNestedField(u.Object, "Inactive", "spec", "desiredState") })
+	w.s.Mutate(w.revKey("r1"), func(u *unstructured.Unstructured) {
+		_ = unstructured.SetNestedField(u.Object, "Active", "spec", "desiredState")
+	})
+	w.s.Mutate(w.revKey("r2"), func(u *unstructured.Unstructured) {
+		_ = unstructured.SetNestedField(u.Object, "Inactive", "spec", "desiredState")
+	})
 	ctx := context.Background()
 	req := reconcile.Request{NamespacedName: types.NamespacedName{Name: revName("r1")}}
 	_, _ = w.rec["r1"].Reconcile(ctx, req)
@@ -1054,8 +1122,12 @@ func (w *world) installStart(start string, init map[string]any) {
 		panic(fmt.Sprintf("cannot install the start configuration: %v", err))
 	}
 	if start == "handover" {
-		w.s.Mutate(w.revKey("r1"), func(u *unstructured.Unstructured) { _ = unstructured.SetNestedField(u.Object, "Inactive", "spec", "desiredState") })
-		w.s.Mutate(w.revKey("r2"), func(u *unstructured.Unstructured) { _ = unstructured.SetNestedField(u.Object, "Active", "spec", "desiredState") })
+		w.s.Mutate(w.revKey("r1"), func(u *unstructured.Unstructured) {
+			_ = unstructured.SetNestedField(u.Object, "Inactive", "spec", "desiredState")
+		})
+		w.s.Mutate(w.revKey("r2"), func(u *unstructured.Unstructured) {
+			_ = unstructured.SetNestedField(u.Object, "Active", "spec", "desiredState")
+		})
 	}
 	w.s.Log = nil
 }
@@ -1184,6 +1256,7 @@ type summary struct {
 	Drift      int            `json:"drift"`
 	DriftRuns  int            `json:"drift_runs"`
 	SweepRuns  int            `json:"sweep_runs"`
+	Reads      int            `json:"reads"`
 	Counts     map[string]int `json:"counts"`
 	Samples    []any          `json:"samples"`
 	DriftByAbs map[string]int `json:"drift_by_abs"`
@@ -1222,6 +1295,7 @@ func run(tw *trace.Writer, id string, hist []replay.Entry, sw *sweep, first stri
 	}
 	w.settle(first)
 	sum.Runs++
+	sum.Reads += w.reads
 	sum.Drift += drift
 	if drift > 0 {
 		sum.DriftRuns++
@@ -1261,10 +1335,11 @@ func main() {
 	dec := map[string]simapi.Decision{"error": simapi.FailError, "conflict": simapi.FailConflict, "crashBefore": simapi.CrashBefore, "crashAfter": simapi.CrashAfter}
 	for i, raw := range raws {
 		var sc struct {
-			ID    string          `json:"id"`
-			Hist  json.RawMessage `json:"hist"`
-			First string          `json:"first"`
-			Sweep *struct {
+			ID      string          `json:"id"`
+			Hist    json.RawMessage `json:"hist"`
+			First   string          `json:"first"`
+			SweepMe bool            `json:"sweepme"`
+			Sweep   *struct {
 				Rec     int    `json:"rec"`
 				Idx     int    `json:"idx"`
 				Outcome string `json:"outcome"`
@@ -1288,7 +1363,7 @@ func main() {
 			continue
 		}
 		calls := run(tw, sc.ID, hist, nil, sc.First, sum)
-		if i < *sweepN {
+		if i < *sweepN || sc.SweepMe {
 			// every real call index of every top-level reconcile x every outcome, then the settle phase
 			for _, rn := range calls {
 				recNo, n := rn[0], rn[1]
